@@ -130,12 +130,14 @@ def record_suite(suite, tier, seed, key):
         # one file per chunk of runs so that validation parallelises and replay files stay small
         nruns = runs[ti]
         nev = events[ti]
-        chunk = 6
+        chunk = 1 if mode == "big" else 6
         jobs = []
         for c in range(0, nruns, chunk):
             p = os.path.join(cdir, "r%03d.ndjson" % c)
             sd = seed * 7919 + c * 104729 + (hash_name(suite) % 1000)
-            if mode == "diff":
+            if mode == "big":
+                cmd = ["timeout", "900", drive_bin(profile), "big", "--elem", elem, "--seed", str(sd), "--n", str(nev)] + flags + ["--out", p]
+            elif mode == "diff":
                 pb = p.replace(".ndjson", ".rel.ndjson")
                 cmd = ["sh", "-c", "timeout 300 %s random --elem %s --seed %d --runs %d --events %d %s --out %s && timeout 300 %s run --elem %s --script %s --out %s"
                        % (drive_bin("debug"), elem, sd, min(chunk, nruns - c), nev, " ".join(flags), p, drive_bin("release"), elem, p, pb)]
